@@ -10,7 +10,7 @@ from fractions import Fraction
 
 from ..alg import Poly, Q, Rat, is_zero
 from ..repo import AnalysisError, dotted, norm_text, walk_no_nested
-from ..xeval import Interp, XObj, XRaise
+from ..xeval import Interp, XObj, XRaise, Uninterpretable
 from ..xarray import XArray, einsum as x_einsum
 
 LA = "EasyFEA.FEM._linalg"
@@ -69,6 +69,40 @@ def closed_forms(ctx):
             r.ok(f"Trace {n}x{n}")
         else:
             r.fail(ftr.qualname, f"trace{n}", ftr.file, ftr.lineno, "Trace", f"{n}x{n}: trace is {t!r}")
+    # stacks of matrices with leading axes of the same size as the matrices (a plain (n, n, n) stack, and (2, 2, n, n))
+    for n in (1, 2, 3):
+        for lead in ((n,), (2, 2)):
+            m = 1
+            for x in lead:
+                m *= x
+            A = XArray(lead + (n, n), [Poly.var(f"a{k}_{i}{j}") for k in range(m) for i in range(n) for j in range(n)])
+            Af = A.reshape((m, n, n))
+            r.instance(fn=finv.qualname)
+            bad = None
+            try:
+                inv = XArray.from_nested(I.call_function(finv, [A]))
+                det = XArray.from_nested(I.call_function(fdet, [A]))
+                tr = XArray.from_nested(I.call_function(ftr, [A]))
+            except (XRaise, Uninterpretable) as e:
+                bad = f"raises {e}"
+            if bad is None and (inv.shape != A.shape or det.shape != lead or tr.shape != lead):
+                bad = f"shapes Inv {inv.shape}, Det {det.shape}, Trace {tr.shape}"
+            if bad is None:
+                invf, detf, trf = inv.reshape((m, n, n)), det.reshape((m,)), tr.reshape((m,))
+                for k in range(m):
+                    if not is_zero(trf[k] - sum((Af[k, i, i] for i in range(n)), Poly())):
+                        bad = f"Trace of matrix {k} of the stack"
+                    for i in range(n):
+                        for j in range(n):
+                            tot = Rat.of(Poly())
+                            for l in range(n):
+                                tot = tot + Rat.of(Af[k, i, l]) * Rat.of(invf[k, l, j])
+                            if not is_zero(tot - (1 if i == j else 0)):
+                                bad = bad or f"(A . Inv(A))[{i},{j}] of matrix {k} of the stack is not the identity (the determinants are paired with the wrong axes)"
+            if bad:
+                r.fail(finv.qualname, f"stack{lead}x{n}", finv.file, finv.lineno, "Inv", f"stack of shape {lead + (n, n)}: {bad}")
+            else:
+                r.ok(f"Det / Inv / Trace on a {lead + (n, n)} stack")
     # transpose
     r.instance(fn=ftp.qualname)
     A = XArray((1, 1, 2, 3), [Poly.var(f"a{i}{j}") for i in range(2) for j in range(3)])
